@@ -216,6 +216,7 @@ func cmdRun(prop, tier, only string, verbose bool, workers int, solverBin string
 	}
 	validated := 0
 	mismatches := 0
+	notes := map[string]bool{}
 	for key, jobs := range jobsByKey {
 		traces, err := rp.run(key, jobs)
 		if err != nil {
@@ -235,6 +236,18 @@ func cmdRun(prop, tier, only string, verbose bool, workers int, solverBin string
 				}
 			}
 			if !interpIncomplete {
+				if !sameTrace(nat, ref.conc) {
+					// run this job once more on its own: a native trace that is not reproducible
+					// (map iteration order, scheduling) is not an interpreter error
+					if again, err := rp.run(key, []replayJob{jobs[i]}); err == nil && again[0] != nil {
+						if sameTrace(again[0], ref.conc) {
+							nat = again[0]
+						} else if !sameTrace(again[0], nat) {
+							notes["native trace of "+ref.h.Name()+" is not deterministic across runs; validation skipped for that vector"] = true
+							continue
+						}
+					}
+				}
 				if sameTrace(nat, ref.conc) {
 					validated++
 				} else {
@@ -268,7 +281,6 @@ func cmdRun(prop, tier, only string, verbose bool, workers int, solverBin string
 	totalPaths, totalSteps := 0, int64(0)
 	var solver SolverStats
 	funcs := map[string]bool{}
-	notes := map[string]bool{}
 	var samples []interface{}
 	incomplete := []string{}
 	xchecked := 0
